@@ -726,6 +726,30 @@ def error_table():
     return out
 
 
+def file_nobody_table():
+    """wsgi.file_wrapper returned with a 1xx/204/304 status: seekable / not x content size (incl. the
+    1000 bytes of the observed defect) x Content-Length{absent, exact, smaller, larger} x GET/HEAD x
+    version x Connection.  Expected: the head only, the file closed once by the task, no hand-over
+    (fix d117733)"""
+    out = []
+    for status in ("304 Not Modified", "204 No Content", "100 Continue", "199 X", "3040"):
+        for seekable in (True, False):
+            for content in (b"abcdef", b"j" * 1000):
+                for clmode in ("absent", "exact", "smaller", "larger"):
+                    hs = [("Content-Type", "text/plain")]
+                    if clmode != "absent":
+                        n = {"exact": len(content), "smaller": 3, "larger": len(content) + 5}[clmode]
+                        hs.append(("Content-Length", str(n)))
+                    bs = 4 if len(content) < 10 else 32768
+                    steps = [Y(content[i:i + bs]) for i in range(0, len(content), bs)]
+                    for head in (False, True):
+                        for version, conn in (("1.1", None), ("1.0", "keep-alive"), ("1.1", "close"), ("1.0", None)):
+                            out.append((("file-nobody", status, seekable, len(content), clmode, head, version, conn),
+                                        mk_case([S(status, hs)], kind=("file", seekable), steps=steps, version=version,
+                                                conn=conn, head=head, block_size=bs, prefix=(2 if seekable else 0))))
+    return out
+
+
 def ladder_500_table():
     """the application fails before any output: the ladder's 500, for method{GET,HEAD} x version x
     Connection x connection_close x expose_tracebacks x where the failure happens (a response to
@@ -1146,6 +1170,9 @@ FAULT_BASES = [
     ("fileS with CL", [S("200 OK", [("Content-Length", "3")])], ("file", True), [b"abcd", b"ef"], {"block_size": 4}),
     ("fileN", [S("200 OK", [])], ("file", False), [b"abcd", b"ef"], {"block_size": 4}),
     ("no close attr", [S("200 OK", [])], ("gen",), [b"ab"], {"has_close": False}),
+    # a seekable file wrapper after a status without body is iterated and closed by the task (fix d117733)
+    ("fileS 304", [S("304 Not Modified", [])], ("file", True), [b"abcd", b"ef"], {"block_size": 4, "prefix": 1}),
+    ("fileS 204 with CL", [S("204 No Content", [("Content-Length", "6")])], ("file", True), [b"abcd", b"ef"], {"block_size": 4}),
 ]
 
 
@@ -1187,6 +1214,10 @@ def fault_positions(case):
         out.append(("call", i))
     is_file = app["kind"][0] == "file"
     seekable = is_file and app["kind"][1]
+    starts = [a for a in app["call"] if a[0] == "S"]
+    if seekable and starts and isinstance(starts[0][1], str) and (
+            starts[0][1].startswith("1") or starts[0][1].startswith("204") or starts[0][1].startswith("304")):
+        seekable = False      # not handed over: the TASK reads the file, a read may fail under it
     for j, s in enumerate(app["steps"]):
         if not is_file:
             for i in range(len(s["acts"]) + 1):
@@ -1395,4 +1426,4 @@ def framing_cases(rng, tier):
         for conn in CONNS:
             c = mk_case([["R", "XE"]], version=version, conn=conn)
             out.append((("ladder 500", version, conn), c))
-    return out + ladder_500_table()
+    return out + ladder_500_table() + file_nobody_table()
